@@ -493,6 +493,11 @@ func genC18(g *Gen) {
 		g.pow(x, y, g.r.Intn(6), true)
 		g.pow(x, y.Neg(), g.r.Intn(6), true)
 		g.pow(g.cohort(x), y, g.r.Intn(6), true)
+		// the same exponents under bases that are not powers of ten, above and below one (the general path must give up
+		// before it multiplies)
+		z := []d128.Decimal{mk(false, big.NewInt(3), 0), mk(false, big.NewInt(5), -1), mk(true, big.NewInt(7), 0), mk(false, big.NewInt(10000001), -7)}[i%4]
+		g.pow(z, y, g.r.Intn(6), true)
+		g.pow(z, y.Neg(), g.r.Intn(6), true)
 	})
 	// the logarithm's table slots amplified by the exponent: the argument reduction of ln x works on the two leading digits
 	// of the coefficient (90 slots), and an error of 1e-35 in ln x that Log itself hides inside its ulp becomes tens of ulps
